@@ -10,6 +10,7 @@ ArrivalsAfter(before, after, p) ==
 Live(t, q) ==
   IF q = Main THEN t.mpc # "m.done"
   ELSE IF q = Reader THEN t.rpc # "r.done"
+  ELSE IF q = Waiter THEN t.xpc # "x.done"
   ELSE t.wpc[q[2]] \notin {"done", "absent"}
 
 GenInit ==
